@@ -12,19 +12,20 @@ using namespace scn;
 
 namespace {
 
-enum T { T_CHAR, T_BYTE, T_SHORT, T_USHORT, T_INT, T_UINT, T_LONG, T_ULONG, T_FLOAT, T_DOUBLE, T_BOOL, T_STRING, T_ASHORT, T_AINT, T_ALONG, T_AFLOAT, T_ADOUBLE, T_ABYTE, T_COUNT };
-const char* TN[] = {"char", "byte", "short", "ushort", "int", "unsigned", "Long", "ULong", "float", "double", "bool", "String", "Array<short>", "Array<int>", "Array<Long>", "Array<float>", "Array<double>", "Array<byte>"};
+enum T { T_CHAR, T_BYTE, T_SHORT, T_USHORT, T_INT, T_UINT, T_LONG, T_ULONG, T_FLOAT, T_DOUBLE, T_BOOL, T_STRING, T_ASHORT, T_AINT, T_ALONG, T_AFLOAT, T_ADOUBLE, T_ABYTE, T_SCHAR, T_LSTRING, T_COUNT };
+const char* TN[] = {"char", "byte", "short", "ushort", "int", "unsigned", "Long", "ULong", "float", "double", "bool", "String", "Array<short>", "Array<int>", "Array<Long>", "Array<float>", "Array<double>", "Array<byte>", "signed char", "int length + String"};
 int elemSize(int t)
 {
 	switch (t)
 	{
-	case T_CHAR: case T_BYTE: case T_BOOL: case T_STRING: case T_ABYTE: return 1;
+	case T_CHAR: case T_BYTE: case T_BOOL: case T_STRING: case T_ABYTE: case T_SCHAR: case T_LSTRING: return 1;
 	case T_SHORT: case T_USHORT: case T_ASHORT: return 2;
 	case T_INT: case T_UINT: case T_FLOAT: case T_AINT: case T_AFLOAT: return 4;
 	default: return 8;
 	}
 }
-bool isArray(int t) { return t >= T_ASHORT; }
+bool isArray(int t) { return t >= T_ASHORT && t <= T_ABYTE; }
+bool isString(int t) { return t == T_STRING || t == T_LSTRING; }
 
 struct Item
 {
@@ -64,7 +65,7 @@ void genEndian(Prng& r, Plan& p, int)
 		if (r.below(6) == 0)
 			p.ops.push_back(op("en", {(int64_t)r.below(3)}));
 		int t = (int)r.below(T_COUNT);
-		int64_t cnt = isArray(t) || t == T_STRING ? biased(r, 0, 100, {0, 1, 2, 100}) : -1;
+		int64_t cnt = isArray(t) || isString(t) ? biased(r, 0, 100, {0, 1, 2, 100}) : -1;
 		p.ops.push_back(op("it", {t, cnt, (int64_t)(r.next() >> 20), (int64_t)(isArray(t) && r.below(3) == 0 ? 2 + r.below(2) : 1)}));
 	}
 	if (r.below(2))
@@ -97,7 +98,7 @@ std::vector<Item> itemsOf(const Plan& p)
 			it.type = (int)(std::abs(o.arg(0)) % T_COUNT);
 			Prng r((uint64_t)o.arg(2));
 			int cnt = (int)std::max<int64_t>(0, std::min<int64_t>(400, o.arg(1)));
-			if (it.type == T_STRING)
+			if (isString(it.type))
 			{
 				for (int i = 0; i < cnt; i++)
 					it.str += (char)(1 + r.below(255)); // NUL-free
@@ -137,6 +138,15 @@ std::string reference(const std::vector<Item>& items, int endian0)
 		}
 		if (it.type == T_STRING)
 		{
+			o += it.str;
+			continue;
+		}
+		if (it.type == T_LSTRING)
+		{
+			// the convention File >> String and Socket >> String read: an int length in the current byte order, then the characters
+			uint32_t n = (uint32_t)it.str.size();
+			for (int k = 0; k < 4; k++)
+				o += (char)((n >> (8 * (e == 0 ? 3 - k : k))) & 0xff);
 			o += it.str;
 			continue;
 		}
@@ -193,6 +203,8 @@ void writeAll(W& w, const std::vector<Item>& items)
 		case T_DOUBLE: w << fromBits<double>(it.bits[0]); break;
 		case T_BOOL: w << (it.bits[0] != 0); break;
 		case T_STRING: w << asl::String(it.str.c_str()); break;
+		case T_LSTRING: w << (int)it.str.size() << asl::String(it.str.c_str()); break;
+		case T_SCHAR: w << fromBits<signed char>(it.bits[0]); break;
 		case T_ASHORT: { asl::Array<short> a = arr<short>(it); for (int rep = 0; rep < it.times; rep++) w << a; break; }
 		case T_AINT: { asl::Array<int> a = arr<int>(it); for (int rep = 0; rep < it.times; rep++) w << a; break; }
 		case T_ALONG: { asl::Array<asl::Long> a = arr<asl::Long>(it); for (int rep = 0; rep < it.times; rep++) w << a; break; }
@@ -231,6 +243,13 @@ void readAll(R& r, const std::vector<Item>& items, Mismatch& mm)
 				mm = Mismatch{true, idx - 1, it.type, it.str.size(), s.size()};
 			continue;
 		}
+		if (it.type == T_LSTRING)
+		{
+			std::string s = r.readLString();
+			if (s != it.str && !mm.any)
+				mm = Mismatch{true, idx - 1, it.type, it.str.size(), s.size()};
+			continue;
+		}
 		for (int rep = 0; rep < it.times; rep++)
 		for (uint64_t want : it.bits)
 		{
@@ -248,6 +267,7 @@ void readAll(R& r, const std::vector<Item>& items, Mismatch& mm)
 			case T_FLOAT: case T_AFLOAT: { float v = 0; r >> v; got = toBits(v); break; }
 			case T_DOUBLE: case T_ADOUBLE: { double v = 0; r >> v; got = toBits(v); break; }
 			case T_BOOL: { bool v = false; r >> v; got = v ? 1 : 0; break; }
+			case T_SCHAR: { signed char v = 0; r >> v; got = toBits(v); break; }
 			}
 			if (got != want && !mm.any)
 				mm = Mismatch{true, idx - 1, it.type, want, got};
@@ -263,6 +283,12 @@ struct BufReader : public asl::StreamBufferReader
 		asl::ByteArray a = read((int)n);
 		return std::string((const char*)a.data(), (size_t)a.length());
 	}
+	std::string readLString()
+	{
+		int n = 0;
+		*this >> n;
+		return n >= 0 && n <= 100000 ? rawRead((size_t)n) : std::string("<length out of range>");
+	}
 };
 struct FileReader
 {
@@ -276,6 +302,12 @@ struct FileReader
 		s.resize((size_t)std::max(0, k));
 		return s;
 	}
+	std::string readLString()
+	{
+		asl::String x;
+		f >> x;
+		return std::string(*x, (size_t)x.length());
+	}
 };
 struct SockReader
 {
@@ -288,6 +320,12 @@ struct SockReader
 		int k = n ? s.read(&b[0], (int)n) : 0;
 		b.resize((size_t)std::max(0, k));
 		return b;
+	}
+	std::string readLString()
+	{
+		asl::String x;
+		s >> x;
+		return std::string(*x, (size_t)x.length());
 	}
 };
 
@@ -310,7 +348,7 @@ void report(const char* leg, const std::string& wire, const std::string& ref, co
 				e = it.endian;
 				continue;
 			}
-			size_t len = it.type == T_STRING ? it.str.size() : it.bits.size() * (size_t)elemSize(it.type) * (size_t)it.times;
+			size_t len = it.type == T_STRING ? it.str.size() : it.type == T_LSTRING ? it.str.size() + 4 : it.bits.size() * (size_t)elemSize(it.type) * (size_t)it.times;
 			if (d < off + len || &it == &items.back())
 			{
 				at = &it;
@@ -322,7 +360,7 @@ void report(const char* leg, const std::string& wire, const std::string& ref, co
 		char key[96];
 		snprintf(key, sizeof key, "%s;%s;%s", leg, at ? TN[at->type] : "?", atE == 0 ? "BIG" : atE == 1 ? "LITTLE" : "NATIVE");
 		sim::fail("wire_bytes", key, "%s leg: %zu bytes produced, %zu expected; first difference at byte %zu, inside a %s of %zu elements written in %s order", leg, wire.size(), ref.size(), d, at ? TN[at->type] : "?",
-		          at ? (at->type == T_STRING ? at->str.size() : at->bits.size()) : 0, atE == 0 ? "BIG" : atE == 1 ? "LITTLE" : "NATIVE");
+		          at ? (isString(at->type) ? at->str.size() : at->bits.size()) : 0, atE == 0 ? "BIG" : atE == 1 ? "LITTLE" : "NATIVE");
 		return;
 	}
 	if (mm.any)
